@@ -64,6 +64,8 @@ pub struct Shape {
     pub probe: Option<Prober>,
     /// `join().count()`: the iterator adaptor must still visit (fetch) every index
     pub count: Option<fn(&mut Fetched) -> usize>,
+    /// `join().skip(k).step_by(s)`: positioned through Iterator::nth
+    pub stepped: Option<fn(&mut Fetched, &mut Rec, usize, usize)>,
     /// members that are consumed (drain / by-value change set): position -> resource
     pub consuming: bool,
 }
@@ -113,6 +115,12 @@ macro_rules! shape {
                 $($pre;)*
                 ($($m,)+).join().count()
             }),
+            stepped: Some(|$f: &mut Fetched, rec: &mut Rec, k: usize, st: usize| {
+                $($pre;)*
+                for mut it in ($($m,)+).join().skip(k).step_by(st) {
+                    rec.take(&mut it);
+                }
+            }),
             consuming: false,
         }
     };
@@ -125,6 +133,7 @@ macro_rules! shape {
             lend_each: shape!(@each $f, {$($pre;)*}, ($($m),+)),
             probe: Some(shape!(@probe $f, {$($pre;)*}, ($($m),+))),
             count: None,
+            stepped: None,
             consuming: false,
         }
     };
@@ -144,6 +153,12 @@ macro_rules! shape {
             count: Some(|$f: &mut Fetched| {
                 $($pre;)*
                 ($($m,)+).join().count()
+            }),
+            stepped: Some(|$f: &mut Fetched, rec: &mut Rec, k: usize, st: usize| {
+                $($pre;)*
+                for mut it in ($($m,)+).join().skip(k).step_by(st) {
+                    rec.take(&mut it);
+                }
             }),
             consuming: true,
         }
@@ -290,8 +305,22 @@ fn run_mode(case: &JoinCase, shape: &Shape, mode: u8, prop: &'static str) -> Res
         probes.extend(expected.iter().filter_map(|i| jw.model.handles.get(i)).take(3).cloned());
         probes.extend(jw.model.handles.iter().filter(|(i, _)| !ex.contains(i)).take(3).map(|(_, e)| *e));
         probes.extend(jw.model.dead_handles.iter().take(4).cloned());
+        // lookups by entity are random access: ascending, descending, or back and forth
+        match case.pattern.len() % 3 {
+            1 => probes.reverse(),
+            2 => {
+                let n = probes.len();
+                probes = (0..n).map(|k| if k % 2 == 0 { probes[k / 2] } else { probes[n - 1 - k / 2] }).collect();
+            }
+            _ => {}
+        }
     }
     let mut counted: Option<usize> = None;
+    // mode 5: skip / stride derived from the case
+    let skip_k = case.pattern.len() % 3;
+    let step_s = 1 + (case.pattern.iter().filter(|b| **b).count() % 3);
+    let all_expected = expected.clone();
+    let expected: Vec<u32> = if mode == 5 { expected.iter().skip(skip_k).step_by(step_s).cloned().collect() } else { expected };
     {
         let mut f = jw.fetch();
         match mode {
@@ -299,7 +328,8 @@ fn run_mode(case: &JoinCase, shape: &Shape, mode: u8, prop: &'static str) -> Res
             1 => (shape.lend)(&mut f, &mut rec),
             2 => (shape.lend_each)(&mut f, &mut rec),
             3 => (shape.probe.expect("probe mode"))(&mut f, &probes, &mut rec),
-            _ => counted = Some((shape.count.expect("count mode"))(&mut f)),
+            4 => counted = Some((shape.count.expect("count mode"))(&mut f)),
+            _ => (shape.stepped.expect("stepped mode"))(&mut f, &mut rec, skip_k, step_s),
         }
     }
     if let Some(n) = counted {
@@ -308,7 +338,7 @@ fn run_mode(case: &JoinCase, shape: &Shape, mode: u8, prop: &'static str) -> Res
         // nothing was written; consumed members must have been visited all the same
         rec.seen = expected.iter().map(|i| (shape.spec.iter().map(|m| expected_item(&jw, m, *i)).collect(), false)).collect();
     }
-    let mode_name = ["join()", "lend_join().next()", "lend_join().for_each()", "lend_join().get()", "join().count()"][mode as usize];
+    let mode_name = ["join()", "lend_join().next()", "lend_join().for_each()", "lend_join().get()", "join().count()", "join().skip(k).step_by(s)"][mode as usize];
     let ctx = format!("shape [{}] via {}", shape.name, mode_name);
     let errs = with_ledger(|l| l.take_errors());
     if let Some(e) = errs.first() {
@@ -350,6 +380,18 @@ fn run_mode(case: &JoinCase, shape: &Shape, mode: u8, prop: &'static str) -> Res
     // effects: writes through items, drained members, everything else untouched
     let mut want_vals = jw.model.vals.clone();
     let mut want_changes = jw.model.changes.clone();
+    if mode == 5 {
+        // items passed over by skip / step_by were fetched and discarded: a drained member loses them too
+        for (pos, m) in shape.spec.iter().enumerate() {
+            if let Req(Res::S(s)) | Opt(Res::S(s)) = m {
+                if member_is_drain(shape.name, pos) {
+                    for i in &all_expected {
+                        want_vals[*s].remove(i);
+                    }
+                }
+            }
+        }
+    }
     for (k, i) in expected.iter().enumerate() {
         let wrote = rec.seen[k].1;
         for (pos, m) in shape.spec.iter().enumerate() {
@@ -461,11 +503,14 @@ fn c06_one(case: &JoinCase, stats: &mut Stats, prop: &'static str, filter: fn(&S
     let cands: Vec<&Shape> = all.iter().filter(|s| filter(s)).collect();
     let shape = cands[(case.shape as usize * cands.len()) >> 16];
     let mut facts = JoinFacts::default();
-    for mode in 0u8..5 {
+    for mode in 0u8..6 {
         if mode == 0 && shape.join.is_none() {
             continue;
         }
         if mode == 4 && shape.count.is_none() {
+            continue;
+        }
+        if mode == 5 && shape.stepped.is_none() {
             continue;
         }
         if mode == 3 && shape.probe.is_none() {
